@@ -77,6 +77,7 @@ CheckCase(r, e, cs) ==
       nameMap == [nm \in {r.names[k] : k \in 1..Len(r.names)} |->
                     r.nums[CHOOSE k \in 1..Len(r.names) : r.names[k] = nm]]
       slots == {r.nums[k] : k \in 1..Len(r.nums)}
+      SlotIdx(gn) == (CHOOSE k \in 1..Len(r.gnums) : r.gnums[k] = gn) - 1
       \* ---- C02: entry points agree
       entry ==
            ok(cs.ms.err = "" /\ cs.ms.v = (M # <<>>), "entry.MatchString", "")
@@ -111,8 +112,10 @@ CheckCase(r, e, cs) ==
       repl ==
         UNION {LET rp == cs.rep[k]
                    Ms == Take(IF rp.start < 0 THEN M ELSE From(rp.start), rp.count)
-                   toks == ParseRepl(rp.r, slots, nameMap, IsWordCh)
-                   want  == ReplaceWith(Ms, s, rtl, LAMBDA m : Expand(toks, m, s, r.last))
+                   toks0 == ParseRepl(rp.r, slots, nameMap, IsWordCh)
+                   \* group NUMBERS -> capture slots (they differ when the numbering is sparse)
+                   toks == [t \in 1..Len(toks0) |-> IF toks0[t].k = "grp" THEN [toks0[t] EXCEPT !.g = SlotIdx(toks0[t].g)] ELSE toks0[t]]
+                   want  == ReplaceWith(Ms, s, rtl, LAMBDA m : Expand(toks, m, s, SlotIdx(r.last)))
                    wantf == ReplaceWith(Ms, s, rtl, LAMBDA m : <<60>> \o GroupText(m, s, 0) \o <<62>>)
                    usable == r.exact \/ ~hasG \/ rp.start < 0
                IN IF ~usable THEN {}
